@@ -401,6 +401,36 @@ fn literal_texts(n: usize) -> Vec<String> {
         cur = next;
     }
     let mut out = Vec::new();
+    // long bracket literals: line breaks of every kind at the start, in the middle and at the end
+    let long_pieces = ["a", "\r\n", "\n", "\r", "\n\r", "]", "]=", "[[", "\\n", " "];
+    let mut longs: Vec<String> = vec![String::new()];
+    let mut cur: Vec<String> = vec![String::new()];
+    for _ in 0..n.max(3) {
+        let mut next = Vec::new();
+        for b in &cur {
+            for p in long_pieces {
+                next.push(format!("{}{}", b, p));
+            }
+        }
+        longs.extend(next.iter().cloned());
+        cur = next;
+    }
+    for b in longs {
+        if !b.contains("]]") && !b.ends_with(']') {
+            out.push(format!("[[{}]]", b));
+        }
+        if !b.contains("]=]") {
+            out.push(format!("[=[{}]=]", b));
+        }
+    }
+    // a backslash directly before each kind of line break in a quoted string
+    for br in ["\n", "\r\n", "\r", "\n\r"] {
+        for q in ['"', '\''] {
+            out.push(format!("{}a\\{}b{}", q, br, q));
+            out.push(format!("{}\\{}{}", q, br, q));
+            out.push(format!("{}\\z{} b{}", q, br, q));
+        }
+    }
     for b in bodies {
         out.push(format!("\"{}\"", b));
         out.push(format!("'{}'", b));
